@@ -22,6 +22,7 @@ type Case struct {
 	Str      string `json:"string_printable,omitempty"`
 	Class    string `json:"string_class,omitempty"`
 	Variant  string `json:"variant,omitempty"`
+	Previous string `json:"content_under_the_name_before_the_write,omitempty"`
 }
 
 var positions = []string{"env-value", "hook-arg", "hook-path", "mount-option", "mount-hostpath", "annotation-value", "rdt-l3schema", "devnode-hostpath",
@@ -55,6 +56,34 @@ func baseSpec() *specs.Spec {
 		},
 	}
 }
+
+// overwriteFamily: Specs that differ by content at the END of the document (member order:
+// cdiVersion, kind, annotations, devices, containerEdits), so that one encoding is a prefix of,
+// shorter than, longer than or as long as another; each is written over each.
+func overwriteFamily() (names []string, fam map[string]*specs.Spec) {
+	fam = map[string]*specs.Spec{}
+	add := func(n string, f func(sp *specs.Spec)) {
+		sp := baseSpec()
+		f(sp)
+		names = append(names, n)
+		fam[n] = sp
+	}
+	add("base", func(sp *specs.Spec) {})
+	add("minus-last-device", func(sp *specs.Spec) { sp.Devices = sp.Devices[:1] })
+	add("minus-spec-edits", func(sp *specs.Spec) { sp.ContainerEdits = specs.ContainerEdits{} })
+	add("minus-last-device-and-spec-edits", func(sp *specs.Spec) { sp.Devices = sp.Devices[:1]; sp.ContainerEdits = specs.ContainerEdits{} })
+	add("plus-last-device-env", func(sp *specs.Spec) { sp.Devices[1].ContainerEdits.Env = []string{"S=2", "T=3"} })
+	add("plus-spec-env", func(sp *specs.Spec) { sp.ContainerEdits.Env = []string{"SPEC=1", "SPEC2=2"} })
+	add("same-length-other-value", func(sp *specs.Spec) { sp.ContainerEdits.Env = []string{"SPEC=2"} })
+	add("minus-annotations", func(sp *specs.Spec) { sp.Annotations = nil })
+	add("minimal", func(sp *specs.Spec) {
+		*sp = specs.Spec{Version: "0.3.0", Kind: "vendor.com/class", Devices: []specs.Device{{Name: "dev", ContainerEdits: specs.ContainerEdits{Env: []string{"A=b"}}}}}
+	})
+	return
+}
+
+// rawPrevious: file content found under the name that is not a Spec written by this library
+var rawPrevious = map[string][]byte{"raw:empty-file": {}, "raw:not-a-spec": []byte("garbage: [not a spec {\n"), "raw:64KiB-of-comment": []byte("#" + strings.Repeat("x", 65535) + "\n")}
 
 func withString(pos, s string) *specs.Spec {
 	sp := baseSpec()
@@ -317,12 +346,25 @@ func prune(v any) any {
 var run *hx.Run
 
 func eval(c Case, sp *specs.Spec, dir string) hx.Result {
+	var prevSpec *specs.Spec
+	var prevRaw []byte
+	if c.Kind == "overwrite" {
+		_, fam := overwriteFamily()
+		if raw, ok := rawPrevious[c.Previous]; ok {
+			prevRaw = raw
+		} else {
+			prevSpec = fam[c.Previous]
+		}
+	}
 	return hx.Guard("", c, func() hx.Result {
 		_ = os.RemoveAll(dir)
 		_ = os.MkdirAll(dir, 0o755)
 		want := normImage(sp)
 		fail := func(enc, kind, msg string, act any) hx.Result {
 			sigCtx := c.Kind + ":" + cause(enc, string(c.S), c.Class) + c.Variant
+			if c.Previous != "" {
+				sigCtx += ":over:" + c.Previous
+			}
 			return hx.Result{Outcome: "FAIL", Nontrivial: true, Fail: &hx.Failure{Sig: enc + ":" + kind + ":" + sigCtx, Msg: fmt.Sprintf("%s at %s %s%s: %s", enc, c.Position, c.Str, c.Variant, msg),
 				Case: c, Expected: json.RawMessage(want), Actual: act, Rank: int64(len(c.S))}}
 		}
@@ -339,6 +381,21 @@ func eval(c Case, sp *specs.Spec, dir string) hx.Result {
 	encodings:
 		for _, name := range []string{"spec.json", "spec.yaml", "spec"} {
 			enc := map[string]string{"spec.json": "json", "spec.yaml": "yaml", "spec": "yaml"}[name]
+			if c.Kind == "overwrite" {
+				// what is found under the name before the write: an earlier Spec written the same way, or foreign content
+				if prevSpec != nil {
+					prevCopy := *prevSpec
+					if err := cache.WriteSpec(&prevCopy, name); err != nil {
+						return hx.Result{Outcome: "not-accepted-for-writing", Nontrivial: false}
+					}
+				} else {
+					p := filepath.Join(dir, name)
+					if name == "spec" {
+						p += ".yaml"
+					}
+					_ = os.WriteFile(p, prevRaw, 0o644)
+				}
+			}
 			copyOf := *sp // WriteSpec must not depend on aliasing
 			if err := cache.WriteSpec(&copyOf, name); err != nil {
 				// not accepted for writing: outside the property's domain (e.g. the string makes the Spec invalid)
@@ -417,6 +474,10 @@ func main() {
 		if c.Kind == "numeric" {
 			return nums[c.Variant]
 		}
+		if c.Kind == "overwrite" {
+			_, fam := overwriteFamily()
+			return fam[c.Variant]
+		}
 		return withString(c.Position, string(c.S))
 	}
 	if r.Replay != "" {
@@ -447,6 +508,16 @@ func main() {
 	for name := range nums {
 		cases = append(cases, Case{Kind: "numeric", Variant: name})
 	}
+	famNames, _ := overwriteFamily()
+	for _, cur := range famNames {
+		for _, prev := range famNames {
+			cases = append(cases, Case{Kind: "overwrite", Variant: cur, Previous: prev})
+		}
+		for prev := range rawPrevious {
+			cases = append(cases, Case{Kind: "overwrite", Variant: cur, Previous: prev})
+		}
+	}
+	r.Extra["overwrite_histories"] = len(famNames) * (len(famNames) + len(rawPrevious))
 	seen := map[string]bool{}
 	for _, s := range stringsDomain {
 		if seen[s] || !utf8.ValidString(s) {
@@ -458,7 +529,7 @@ func main() {
 		}
 	}
 	r.Rule = fmt.Sprintf("valid Specs with every optional member populated x a string domain (every code point U+0000-U+00FF alone, as prefix, suffix and infix; %d YAML/JSON-sensitive spellings; thorough: all ordered pairs of them) inserted at %d free string positions %v, plus %d numeric/shape variants (int64/uint32/file-mode/timeout extremes, empty vs nil lists, list order); "+
-		"each written with WriteSpec as .json, .yaml and extension-less, read back with ReadSpec and through a cache. Oracle: read-back Spec equals the original (nil == empty), cached devices equal, JSON-loaded == YAML-loaded. "+
+		"plus overwrite histories (each of 9 Specs that differ at the end of the document written over each of them and over 3 foreign contents, under the same name); each written with WriteSpec as .json, .yaml and extension-less, read back with ReadSpec and through a cache. Oracle: read-back Spec equals the original (nil == empty), cached devices equal, JSON-loaded == YAML-loaded. "+
 		"Distinct by construction; non-trivial = accepted for writing", len(sensitive), npos, positions[:npos], len(nums))
 	r.Assumptions = []string{"only valid UTF-8 strings (the statement's domain)", "a Spec the writer refuses is outside the domain and only counted"}
 	nw := 16
